@@ -7,6 +7,7 @@ import Driver.Pipe
 import Driver.Nat
 import Driver.Addressing
 import Driver.Deadline
+import Driver.TBF
 
 def main (args : List String) : IO UInt32 := do
   match args with
@@ -20,4 +21,5 @@ def main (args : List String) : IO UInt32 := do
   | ["router"] => Driver.runComponent Driver.Addressing.router; return 0
   | ["host"] => Driver.runComponent Driver.Addressing.host; return 0
   | ["deadline"] => Driver.runComponent Driver.Deadline.comp; return 0
+  | ["tbf"] => Driver.runComponent Driver.TBF.comp; return 0
   | _ => IO.eprintln "usage: vdrv <component> [args]"; return 2
